@@ -34,11 +34,31 @@ def then_form_r2(ctx, r2, rr, hop, ops_i):
     acc = rr.acceptor
     cf, hb, hi, hv, hspan = hop
     tov = dict(hv[3]).get("to")
-    if not (tov is not None and tov[0] == "call" and isinstance(tov[3], str) and re.search(r"bool::(<impl bool>::)?then(_some)?$", generic_path(tov[3]))):
-        return False
-    where = common.span_of_block_term(cf, tov[2])
+    is_then = tov is not None and tov[0] == "call" and isinstance(tov[3], str) and re.search(r"bool::(<impl bool>::)?then(_some)?$", generic_path(tov[3]))
     maps = [P.val_call(acc, acc.body, b) for b, p, fr, t in P.calls(acc) if p and common.last_seg(p) == "map" and "Iterator" in p]
     maps = [v for v in maps if v[4][1][0] == "agg" and v[4][1][2] == cf.path]
+    ifelse_guard = None
+    if not is_then:
+        # `to: if index + 1 == len { Some(..) } else { None }` inside a closure mapped over `.enumerate()`
+        if len(maps) != 1 or [a for a, _ in common.iter_chain(maps[0][4][0])[0]] != ["enumerate"]:
+            return False
+        cb_ = cf.body
+        st_ = cb_.blocks[hb]["stmts"][hi]
+        to_op_ = None
+        for name_, op_ in zip(st_["rv"].get("fields") or [], st_["rv"]["ops"]):
+            if name_ == "to":
+                to_op_ = op_
+        defs_ = cb_.defs().get(to_op_["place"]["l"], []) if to_op_ and to_op_["k"] in ("copy", "move") and not to_op_["place"]["p"] else []
+        some_b = [b for (b, i, k) in defs_ if k == "full" and cb_.blocks[b]["stmts"][i]["rv"]["k"] == "agg" and cb_.blocks[b]["stmts"][i]["rv"].get("variant") == "Some"]
+        none_b = [b for (b, i, k) in defs_ if k == "full" and cb_.blocks[b]["stmts"][i]["rv"]["k"] == "agg" and cb_.blocks[b]["stmts"][i]["rv"].get("variant") == "None"]
+        if len(some_b) != 1 or len(none_b) != 1 or len(defs_) != 2:
+            return False
+        for g_ in common.bool_guards(P, cf):
+            if cb_.edge_dominates(g_.edge(True), some_b[0]) and cb_.edge_dominates(g_.edge(False), none_b[0]):
+                ifelse_guard = g_
+        if ifelse_guard is None or ifelse_guard.cond[0] != "cmp" or ifelse_guard.cond[1] != "eq" or len(ifelse_guard.cond[2]) != 2:
+            return False
+    where = common.span_of_block_term(cf, tov[2]) if is_then else common.span_of_block_term(cf, ifelse_guard.b)
     if len(maps) != 1:
         r2.fail("C13.R2:map", acc.path, acc.span, "hop closure is not applied through a single Iterator::map: unrecognised-idiom")
         return True
@@ -81,7 +101,7 @@ def then_form_r2(ctx, r2, rr, hop, ops_i):
         lens = [x for x in common.walk(v) if x[0] == "call" and isinstance(x[3], str) and generic_path(x[3]).endswith("Vec::len")]
         rs = set(ctx.roots(v))
         return len(lens) == 1 and len(rs) == 1 and list(rs)[0].startswith("C:std::vec::Vec::len@%s:" % acc.path) and set(ctx.roots(lens[0][4][0])) == {P_(acc, ops_i)}
-    cond = strip(tov[4][0])
+    cond = strip(tov[4][0]) if is_then else ("binop", "Eq", ifelse_guard.cond[2][0], ifelse_guard.cond[2][1])
     ok = False
     if cond[0] == "binop" and cond[1] == "Eq":
         a, b_ = strip(cond[2]), strip(cond[3])
@@ -103,7 +123,7 @@ def then_form_r2(ctx, r2, rr, hop, ops_i):
         return True
     r2.site("last-hop test `index + 1 == operations.len()` on the enumerate index at %s" % where)
     r2.site("compared with operations.len() of the same route")
-    r2.site("`to` = Some(..) exactly when the test holds (bool::then), None otherwise")
+    r2.site("`to` = Some(..) exactly when the test holds (%s), None otherwise" % ("bool::then" if is_then else "if / else"))
     # the hop message is built on every call of the closure
     conds = [c for c in common.control_conditions(P, cf, hb) if not (c["cond"][0] == "discr" and c["allowed"] in (["Continue"], ["Ok"]))]
     if conds:
